@@ -125,43 +125,6 @@ def poolStep (st : PoolSt) (op : List String) (env : List (Option Nat)) : PoolSt
       ({ st with pool := none }, leakStr' l, upStr ev, "-")
     | _ => (st, "bad-op", "", "-")
 
-def sizeofList (kind : String) : Nat :=
-  if kind = "free" then C.sizeof_free_list.toNat else if kind = "ord" then C.sizeof_ordered_list.toNat
-  else C.sizeof_small_list.toNat
-def alignofList (kind : String) : Nat :=
-  if kind = "free" then C.alignof_free_list.toNat else if kind = "ord" then C.alignof_ordered_list.toNat
-  else C.alignof_small_list.toNat
-def minElemOf (kind : String) : Nat :=
-  if kind = "free" then C.free_min_element_size.toNat else if kind = "ord" then C.ordered_min_element_size.toNat
-  else C.small_min_element_size.toNat
-
-/-- constructor of the collection: block, the array of lists carved from it by `fixed_memory_stack::allocate`,
-lists constructed with `size_from_index(i + min_size_index)`, then the `max_node_size <= def_capacity` check -/
-def Coll.create (cfg : Cfg) (src : Src) (kind : String) (pol : Policy) (arrays : Bool) (maxNode : Nat)
-    (env : List (Option Nat)) : Option Coll × Out × List UpEv :=
-  let a : Arena := { src := src, isCached := false }
-  match a.allocateBlock env with
-  | .envMissing => (none, .envMissing, [])
-  | .fail _ e ev _ => (none, .throws e, ev)
-  | .ok a' b ev _ =>
-    let minE := minElemOf kind
-    let n := (noElements pol (BitVec.ofNat 64 minE) (BitVec.ofNat 64 maxNode)).toNat
-    match fixedAllocate b.base (b.base + b.size) (mul64 n (sizeofList kind)) (alignofList kind) cfg.fence with
-    | none => (none, .crash, ev)        -- `FOONATHAN_MEMORY_ASSERT_MSG(array_, ...)`: null array is used
-    | some (arr, cur') =>
-      let minIdx := minSizeIndex pol (BitVec.ofNat 64 minE)
-      let mk (i : Nat) : AnyList :=
-        let ns := (pol.sizeFromIndex (BitVec.ofNat 64 i + minIdx)).toNat
-        let at_ := arr + i * sizeofList kind
-        if kind = "free" then .free (FreeList.new ns)
-        else if kind = "ord" then .ord (OrdList.new ns at_ (at_ + 8))
-        else .small (SmallList.new ns at_)
-      let c : Coll := { arena := a', cur := cur', policy := pol, minElem := minE, lists := (List.range n).map mk,
-                        arrays := arrays }
-      match c.defCapacity with
-      | none => (some c, .crash, ev)
-      | some dc => if maxNode > dc then (none, .throws .badNode, ev ++ (c.destroy cfg).1) else (some c, .done, ev)
-
 def presColl (st : PoolSt) (r : PRes Coll) : PoolSt × String × String × String :=
   ({ st with coll := some r.st }, outStr r.out, upStr r.ev, r.st.str)
 
